@@ -279,6 +279,16 @@ pub fn worker(sub: &str, v: Value) -> Value {
             r["applied"] = json!(applied);
             r
         }
+        "C14.louvres" => {
+            let c: LouvreCase = serde_json::from_value(v).expect("case decodes");
+            let m = match louvre_model(&c) {
+                Some(m) => m,
+                None => return json!({"outcome": "rejected", "why": "no positioned window"}),
+            };
+            let mut r = compute_and_probe(&m);
+            r["shades"] = json!(m.shades.len());
+            r
+        }
         "C14.history" => {
             let ops: Vec<Op> = serde_json::from_value(v).expect("case decodes");
             let mut m = Model::default();
@@ -597,6 +607,78 @@ fn mut_case() -> BoxedStrategy<MutCase> {
         .boxed()
 }
 
+// ---- regular arrays of equal shades (brise-soleil, louvres) in front of a window
+
+#[derive(Clone, Debug, Serialize, Deserialize)]
+pub struct LouvreCase {
+    pub base: Base,
+    pub window: u16,
+    /// number of slats (the acceleration structure's leaf size is 30)
+    pub n: u8,
+    pub length: f32,
+    pub depth: f32,
+    /// spacing along the wall's Y axis
+    pub step: f32,
+    /// shift along the wall's X axis and distance from the wall plane
+    pub shift: f32,
+    pub out: f32,
+}
+
+fn louvre_model(c: &LouvreCase) -> Option<Model> {
+    let mut m: Model = serde_json::from_value(base_value(&c.base)).ok()?;
+    let cands: Vec<usize> = (0..m.windows.len())
+        .filter(|i| {
+            let w = &m.windows[*i];
+            w.geometry.position.is_some() && m.walls.iter().any(|x| x.id == w.wall && x.geometry.position.is_some())
+        })
+        .collect();
+    if cands.is_empty() {
+        return None;
+    }
+    let win = m.windows[cands[(c.window as usize) % cands.len()]].clone();
+    let wall = m.walls.iter().find(|x| x.id == win.wall)?.clone();
+    let to_world = wall.geometry.to_global_coords_matrix()?;
+    let wp = win.geometry.position?;
+    for k in 0..c.n {
+        // same extent along the wall's X axis for every slat: their centres coincide on that axis
+        let p = to_world * nalgebra::point![wp.x + c.shift, wp.y + c.step * k as f32, c.out];
+        m.shades.push(bemodel::Shade {
+            id: model::uid(model::K_SHADE, 5000 + k as usize, 77),
+            name: format!("lama{:02}", k),
+            geometry: bemodel::WallGeom {
+                tilt: 0.0,
+                azimuth: wall.geometry.azimuth,
+                position: Some(p),
+                polygon: vec![nalgebra::point![0.0, 0.0], nalgebra::point![c.length, 0.0], nalgebra::point![c.length, c.depth], nalgebra::point![0.0, c.depth]],
+            },
+        });
+    }
+    Some(m)
+}
+
+fn louvre_case() -> BoxedStrategy<LouvreCase> {
+    use crate::gen::geom::dec2;
+    let names = shipped_names();
+    let base = prop_oneof![
+        2 => (0..names.len()).prop_map(move |i| Base::Shipped(names[i].clone())),
+        3 => model::plan(Params { open: false, max_spaces: 2, ..Params::default() }).prop_map(|p| Base::Plan(Box::new(p))),
+    ];
+    (base, any::<u16>(), prop_oneof![3 => 31u8..=48, 1 => 2u8..=30, 1 => 49u8..=90], dec2(0.5, 4.0), prop_oneof![Just(0.1f32), dec2(0.05, 0.5)], prop_oneof![Just(0.0f32), Just(0.03f32), Just(0.05f32), dec2(0.01, 0.3)], dec2(-2.0, 2.0), prop_oneof![Just(0.3f32), dec2(0.05, 1.5)])
+        .prop_map(|(base, window, n, length, depth, step, shift, out)| LouvreCase { base, window, n, length, depth, step, shift, out })
+        .boxed()
+}
+
+fn check_louvres(h: &CaseH, c: &LouvreCase) -> Verdict {
+    let out = worker_call("C14.louvres", c, Duration::from_secs(60));
+    if c.n > 30 {
+        h.nontrivial(fp(c));
+    }
+    h.class(if c.n > 30 { "slats/>30" } else { "slats/<=30" });
+    let v = verdict_of(h, out, &format!("model with {} equal slats in front of a window", c.n), false);
+    h.sample(|| json!({"n": c.n, "length": c.length, "step": c.step, "shift": c.shift}));
+    v
+}
+
 fn check_history(h: &CaseH, ops: &Vec<Op>) -> Verdict {
     let out = worker_call("C14.history", ops, Duration::from_secs(120));
     let has_window = ops.iter().any(|o| matches!(o, Op::AddWindow { .. }));
@@ -612,11 +694,14 @@ fn check_history(h: &CaseH, ops: &Vec<Op>) -> Verdict {
 
 pub fn run(args: &Args) -> ! {
     let ctx = Ctx::new("C14", "exploration", args);
-    ctx.rule("mutants: shipped models and generated models (closed and open plans) with 0-3 structural edits of the JSON tree (delete key / array item, empty / duplicate / truncate array, redirect an id to another, a fresh or the nil id, zero / negate a number, resize a numeric array to 0/1/23/25 values), trees that Model::from_json rejects are counted; histories: 1-25 editor operations from Model::default() with the indicators recomputed after every step. Every computation runs in a worker process (60 s watchdog): panic, hang or process death is a violation; after a panic the same process must still compute a known good model to its baseline; unedited closed models must give only finite numbers and an indicators JSON that loads back to an equal value. Non-trivial: at least one edit applied; history with a window.");
+    ctx.rule("mutants: shipped models and generated models (closed and open plans) with 0-3 structural edits of the JSON tree (delete key / array item, empty / duplicate / truncate array, redirect an id to another, a fresh or the nil id, zero / negate a number, resize a numeric array to 0/1/23/25 values), trees that Model::from_json rejects are counted; histories: 1-25 editor operations from Model::default() with the indicators recomputed after every step; louvres: shipped and generated models with 2-90 equal slats (same extent along the wall, stacked at a fixed spacing: coinciding centres on the longest axis of the group, below, at and above the leaf size of the acceleration structure) in front of one of their windows. Every computation runs in a worker process (60 s watchdog): panic, hang or process death is a violation; after a panic the same process must still compute a known good model to its baseline; unedited closed models must give only finite numbers and an indicators JSON that loads back to an equal value. Non-trivial: at least one edit applied; history with a window.");
     ctx.assume("finiteness is read from the Debug text of EnergyIndicators (every f32, also inside Option); 'closed' = generated closed plan or shipped model, unedited");
     ctx.replay_regressions(replay_one);
     ctx.run_prop("mutants", ctx.tier().pick(40_000, 1_000_000), mut_case, check_mutant);
     ctx.run_prop("histories", ctx.tier().pick(2_000, 30_000), || proptest::collection::vec(op(), 1..=25), check_history);
+    ctx.run_prop("louvres", ctx.tier().pick(1_200, 40_000), louvre_case, check_louvres);
+    ctx.require_class("louvres/slats/>30");
+    ctx.require_class("louvres/outcome/ok");
     for c in ["mutants/outcome/ok", "mutants/outcome/rejected", "mutants/sane-model-checked", "histories/outcome/ok"] {
         ctx.require_class(c);
     }
@@ -660,6 +745,7 @@ pub fn replay_one(ctx: &Ctx, doc: &ReplayDoc) {
     match doc.sub.as_str() {
         "mutants" => replay_case::<MutCase>(ctx, &doc.sub, &doc.case, check_mutant),
         "histories" => replay_case::<Vec<Op>>(ctx, &doc.sub, &doc.case, check_history),
+        "louvres" => replay_case::<LouvreCase>(ctx, &doc.sub, &doc.case, check_louvres),
         s => ctx.infra_error(format!("unknown sub {}", s)),
     }
 }
